@@ -468,6 +468,54 @@ example : readFont tinyTables
       = .ok (nfSimple tinyTables tinyFont tinyPriv) :=
   C13_font_roundtrip_simple tinyTables tinyFont tinyPriv tinyFont_dom _ 2 (by decide +kernel) (by decide)
 
+/-! ## predefined charsets and encodings -/
+
+/-- A font whose Top DICT selects a predefined charset (offset 0, 1, 2: ISOAdobe, Expert,
+ExpertSubset): `Read` allocates the SIDs of the first `n` names of the table with
+`strings.lookup` and finds the glyph names again through them — the glyph names are exactly
+the first `n` names of the table (whatever the string table contains, now or later). -/
+theorem C13_predefined_charset (std : List String) (tab custom0 ext : List String) (n : Nat) :
+    mapOutcomeL (sidName std.toArray ((stringsLookupAll std custom0 (tab.take n)).2 ++ ext).toArray)
+      ((stringsLookupAll std custom0 (tab.take n)).1.map fun (k : Nat) => (k : Int)) = .ok (tab.take n) :=
+  names_back std (tab.take n) custom0 ext
+
+/-- The writer's choice of a predefined encoding is transparent: when `Write` decides that the
+encoding vector is the Standard (or the Expert) encoding of the glyph names and writes nothing
+(or `Encoding = 1`), the vector `Read` derives from the names is that vector. -/
+theorem C13_predefined_encoding (T : Tables) (e : List Nat) (names : List String) (hne : e.length ≠ 0) :
+    (encChoiceOf T (some e) names = .standard → encodingByName T.standardEncRev names = e) ∧
+    (encChoiceOf T (some e) names = .expert → encodingByName T.expertEnc names = e) := by
+  unfold encChoiceOf
+  simp only [hne, false_or]
+  constructor
+  · intro h
+    by_cases h1 : e = encodingByName T.standardEncRev names
+    · exact h1.symm
+    · rw [if_neg h1] at h
+      split at h <;> cases h
+  · intro h
+    by_cases h1 : e = encodingByName T.standardEncRev names
+    · rw [if_pos h1] at h; cases h
+    · rw [if_neg h1] at h
+      by_cases h2 : e = encodingByName T.expertEnc names
+      · exact h2.symm
+      · rw [if_neg h2] at h; cases h
+
+set_option maxRecDepth 100000 in
+/-- The regenerated predefined tables: 229, 166 and 87 names (cff/charset.go), 165 Expert codes
+(cff/encoding.go), 149 Standard codes (seehuhn.de/go/postscript/psenc at the pinned version), all
+codes below 256; every name of the three charsets is a standard string, so reading a predefined
+charset never allocates custom strings. -/
+theorem C13_predefined_tables :
+    Gen.cff_isoAdobeCharset.length = 229 ∧ Gen.cff_expertCharset.length = 166 ∧
+    Gen.cff_expertSubsetCharset.length = 87 ∧ Gen.cffExpertEnc.length = 165 ∧ Gen.cffStandardEncRev.length = 149 ∧
+    (Gen.cffExpertEnc.all fun e => decide (e.2 < 256)) = true ∧
+    (Gen.cffStandardEncRev.all fun e => decide (e.2 < 256)) = true ∧
+    ((Gen.cff_isoAdobeCharset ++ Gen.cff_expertCharset ++ Gen.cff_expertSubsetCharset).all
+      fun nm => Gen.cffStdStrings.toList.contains nm) = true := by
+  refine ⟨by decide +kernel, by decide +kernel, by decide +kernel, by decide +kernel, by decide +kernel,
+    by decide +kernel, by decide +kernel, by decide +kernel⟩
+
 /-! ## regenerated facts the models depend on -/
 
 set_option maxRecDepth 8000 in
